@@ -101,6 +101,9 @@ impl fmt::Display for MolecularShape2 {
 
 impl MolecularShape2 {
     fn overlap_area(r: f64, d: f64) -> f64 {
+        // When two circles only just touch, rounding can put the chord a hair outside of the
+        // circle, where both the arc cosine and the square root are undefined.
+        let d = f64::max(-r, f64::min(r, d));
         r.powi(2) * f64::acos(d / r) - d * f64::sqrt(r.powi(2) - d.powi(2))
     }
 
